@@ -26,18 +26,26 @@ rows = []
 for n in sorted(os.path.basename(os.path.dirname(p)) for p in glob.glob(V + "/seeded/*/meta.json")):
     m = json.load(open(V + "/seeded/%s/meta.json" % n))
     res = {}
-    for k, r in m.get("checks_run", {}).items():
-        if k.startswith("quick/"):
-            for p, x in r.items():
+    runs = m.get("checks_run", {})
+    # scaled matrix runs first, then full-budget runs of the final code (key suffix /final) override
+    for k in sorted(runs, key=lambda k: (k.endswith("/final"), "scale" not in k)):
+        if k.startswith("quick/") and ("scale" in k or k.endswith("/final")):
+            for p, x in runs[k].items():
                 if not p.startswith('_'):
-                    res[p] = x
+                    res[p] = dict(x, full=k.endswith("/final"))
     cells = []
     for p in allp:
         x = res.get(p)
-        cells.append("·" if x is None else ("**V**" if x["exit"] == 1 else ("inc" if x["exit"] == 2 else "–")))
+        c = "·" if x is None else ("**V**" if x["exit"] == 1 else ("inc" if x["exit"] == 2 else "–"))
+        cells.append(c + ("ᶠ" if x is not None and x.get("full") else ""))
     rows.append("| %s | %s | %s |" % (n, m["breaks_property"], " | ".join(cells)))
 with open(V + "/seeded/MATRIX.md", "w") as f:
-    f.write("# Seeded changes x checks (quick tier)\n\n**V** = check exits 1 with a VIOLATION line, – = check exits 0 (held), inc = inconclusive (exit 2), · = not run.\n\n")
+    f.write("# Seeded changes x checks (quick tier)\n\n"
+            "**V** = check exits 1 with a VIOLATION line, – = check exits 0 (held), inc = inconclusive (exit 2), · = not run.\n"
+            "Cells come from runs with a fifth of the quick budget and the dbg/rel variants only (`VERIF_SCALE=0.2 VERIF_ONLY_DBG=1`);\n"
+            "cells marked ᶠ were re-run with the full quick budget of the final code (the scaled budget of some checks, C10 in\n"
+            "particular, does not reach their later workloads). An `inc` in a column other than the target usually means that the\n"
+            "changed builder rejected or panicked on valid collections, which only C10 (and C08) treat as a refuting event.\n\n")
     f.write("| change | breaks | " + " | ".join(allp) + " |\n|---|---|" + "---|" * 16 + "\n")
     f.write("\n".join(rows) + "\n")
 print(open(V + "/seeded/MATRIX.md").read())
